@@ -3,6 +3,7 @@
 from __future__ import annotations
 
 import ast
+import re
 
 from .. import specdiff
 from ..classmodel import class_const, module_classes, own_controllers, own_options
@@ -278,8 +279,10 @@ def meta_rules(repo: Repo, rep, P: str):
         rep.violation(f"{P}.meta.registry", construct, "MODULE_CLASSES[…] = cls", "classes are no longer registered under their mtype", where)
     # --- what the tables are collected from: every name visible on the class (dir(cls) / the whole MRO), so that a class derived from a
     #     module class inherits its controllers and options; the class's own namespace (class_dict, vars(base) of the direct bases) is not enough
+    lambda_nodes = {id(x) for l_ in ast.walk(fn) if isinstance(l_, ast.Lambda) for x in ast.walk(l_)}
     for kind in ("Controller", "Option"):
-        tests = [c for c in ast.walk(fn) if isinstance(c, ast.Call) and norm(c.func) == "isinstance" and len(c.args) == 2 and norm(c.args[1]) == kind]
+        tests = [c for c in ast.walk(fn) if isinstance(c, ast.Call) and norm(c.func) == "isinstance" and len(c.args) == 2 and norm(c.args[1]) == kind
+                 and id(c) not in lambda_nodes]          # a test inside a lambda handed to a helper is read with that helper (below)
         if not tests:
             # the selection lives in a module-level helper called with the kind: _members(cls, Controller)
             done = False
@@ -296,6 +299,19 @@ def meta_rules(repo: Repo, rep, P: str):
                     if not sel or hc is None:
                         continue
                     src_h = " ".join(norm(n.iter) for n in ast.walk(h) if isinstance(n, (ast.For, ast.comprehension)))
+                    if not src_h.strip():
+                        # the helper hands the class on to another module-level helper that does the scan: _members(cls, <predicate>)
+                        for c2 in ast.walk(h):
+                            if isinstance(c2, ast.Call) and isinstance(c2.func, ast.Name) and any(norm(a) == hc for a in c2.args):
+                                g_ = next((st for st in meta.file.tree.body if isinstance(st, ast.FunctionDef) and st.name == c2.func.id), None)
+                                if g_ is None:
+                                    continue
+                                gp = [a.arg for a in g_.args.args]
+                                pos_ = next(i for i, a in enumerate(c2.args) if norm(a) == hc)
+                                if pos_ < len(gp):
+                                    src_g = " ".join(norm(n.iter) for n in ast.walk(g_) if isinstance(n, (ast.For, ast.comprehension)))
+                                    src_h = re.sub(rf"\b{re.escape(gp[pos_])}\b", hc, src_g)
+                                    break
                     if f"dir({hc})" in src_h or "__mro__" in src_h or ".mro()" in src_h:
                         rep.ok(f"{P}.meta.collect", construct, f"{kind}: {norm(c)} → {src_h[:60]}", "collected over every name visible on the class (inherited descriptors included)")
                         done = True
@@ -315,23 +331,30 @@ def meta_rules(repo: Repo, rep, P: str):
                         continue
                     hp = [a.arg for a in h.args.args]
                     for i_, a in enumerate(c.args):
-                        if not (isinstance(a, ast.Call) and isinstance(a.func, ast.Name) and len(a.args) == 1 and norm(a.args[0]) == kind and i_ < len(hp)):
+                        if i_ >= len(hp):
                             continue
-                        fac = next((st for st in meta.file.tree.body if isinstance(st, ast.FunctionDef) and st.name == a.func.id), None)
-                        if fac is None or len(fac.args.args) != 1:
-                            continue
-                        kpar = fac.args.args[0].arg
-                        inner = [st for st in fac.body if isinstance(st, ast.FunctionDef)]
-                        rets = [st for st in fac.body if isinstance(st, ast.Return)]
                         is_pred = False
-                        if len(inner) == 1 and len(rets) == 1 and isinstance(rets[0].value, ast.Name) and rets[0].value.id == inner[0].name \
-                                and len(inner[0].args.args) == 1:
-                            vpar = inner[0].args.args[0].arg
-                            ib = [st for st in inner[0].body if not (isinstance(st, ast.Expr) and isinstance(st.value, ast.Constant))]
-                            is_pred = len(ib) == 1 and isinstance(ib[0], ast.Return) and norm(ib[0].value) == f"isinstance({vpar}, {kpar})"
-                        elif len(rets) == 1 and isinstance(rets[0].value, ast.Lambda) and len(rets[0].value.args.args) == 1:
-                            vpar = rets[0].value.args.args[0].arg
-                            is_pred = norm(rets[0].value.body) == f"isinstance({vpar}, {kpar})"
+                        if isinstance(a, ast.Lambda) and len(a.args.args) == 1 and norm(a.body) == f"isinstance({a.args.args[0].arg}, {kind})":
+                            is_pred = True                       # the predicate written in place
+                        elif isinstance(a, ast.Name):
+                            pf = next((st for st in meta.file.tree.body if isinstance(st, ast.FunctionDef) and st.name == a.id), None)
+                            if pf is not None and len(pf.args.args) == 1:
+                                pb = [st for st in pf.body if not (isinstance(st, ast.Expr) and isinstance(st.value, ast.Constant))]
+                                is_pred = len(pb) == 1 and isinstance(pb[0], ast.Return) and norm(pb[0].value) == f"isinstance({pf.args.args[0].arg}, {kind})"
+                        elif isinstance(a, ast.Call) and isinstance(a.func, ast.Name) and len(a.args) == 1 and norm(a.args[0]) == kind:
+                            fac = next((st for st in meta.file.tree.body if isinstance(st, ast.FunctionDef) and st.name == a.func.id), None)
+                            if fac is not None and len(fac.args.args) == 1:
+                                kpar = fac.args.args[0].arg
+                                inner = [st for st in fac.body if isinstance(st, ast.FunctionDef)]
+                                rets = [st for st in fac.body if isinstance(st, ast.Return)]
+                                if len(inner) == 1 and len(rets) == 1 and isinstance(rets[0].value, ast.Name) and rets[0].value.id == inner[0].name \
+                                        and len(inner[0].args.args) == 1:
+                                    vpar = inner[0].args.args[0].arg
+                                    ib = [st for st in inner[0].body if not (isinstance(st, ast.Expr) and isinstance(st.value, ast.Constant))]
+                                    is_pred = len(ib) == 1 and isinstance(ib[0], ast.Return) and norm(ib[0].value) == f"isinstance({vpar}, {kpar})"
+                                elif len(rets) == 1 and isinstance(rets[0].value, ast.Lambda) and len(rets[0].value.args.args) == 1:
+                                    vpar = rets[0].value.args.args[0].arg
+                                    is_pred = norm(rets[0].value.body) == f"isinstance({vpar}, {kpar})"
                         if not is_pred:
                             continue
                         ppar = hp[i_]
